@@ -198,7 +198,10 @@ ec_eval_even(ec_curve_t *image, ec_isog_even_t *phi, ec_point_t *points, unsigne
         return;
     }
     ec_curve_normalize_A24(&phi->curve);
-    ec_eval_even_strategy(image, points, length, &phi->curve.A24, &phi->kernel, phi->length);
+    // the strategy routine uses its A24 argument as working storage: give it a copy, so that the
+    // (normalized, flagged) A24 of the domain curve stays valid and phi can be evaluated again
+    ec_point_t A24 = phi->curve.A24;
+    ec_eval_even_strategy(image, points, length, &A24, &phi->kernel, phi->length);
 }
 
 // naive implementation
